@@ -130,7 +130,7 @@ def P(pid, modules, runs, rule, level_text, assumptions, regen=None, trusted=Non
 P("C01", ["LC.Props.C01", "LC.Props.C01Range"], [MATCH, v2run("TestVerifC01")],
   "every picked corpus document planted (verbatim) between out-of-vocabulary lines, 1-4 copies per input, thresholds "
   "0.8 (quick; +0.9 on even seeds) / 0.7,0.75,0.8,0.9,0.95,1.0 (thorough, all 431 documents), plus user-added synthetic "
-  "documents and minimum-length documents (exactly q, q+1, 2q words at thresholds 0.7/0.8/0.85/0.9/1.0); expected name/span/lines from the white-box tokenisation of the prefix, never from Match. distinct = "
+  "documents, twin documents (the same words under two names) and minimum-length documents (exactly m, m+1, 2m words, m = floor(t/(1-t)) restated in the harness, at ten thresholds); expected name/span/lines from the white-box tokenisation of the prefix, never from Match. distinct = "
   "(threshold, documents); non-trivial = at least one planted copy of >= q tokens was checked",
   "exact_range_proposed: for EVERY document D (>= q tokens) planted between contexts sharing no token with it, the q-gram join, "
   "density window, range fusion and claimed-token cut of the model propose exactly source [0,|D|) -> target [|pre|,|pre|+|D|) "
@@ -141,7 +141,7 @@ P("C01", ["LC.Props.C01", "LC.Props.C01Range"], [MATCH, v2run("TestVerifC01")],
   "condition holds for a planted copy depends on the corpus and is established by the oracle on the real Match over every "
   "corpus document.",
   ["DiffSpec.equalInputs (go-diff returns one Equal segment for identical texts)", FLOAT,
-   "NoDominator: no other corpus document approximately spans several planted copies (the oracle would show it)"], regen=ALLGEN)
+   "NoDominator: no other corpus document approximately spans several planted copies — FALSE for Apache-2.0 a.txt + header vs pristine.txt at threshold 0.75: known finding C01/approximate-superset-dominates-exact, classified by the harness and anchored by the model (needs_corr)"], regen=ALLGEN)
 
 P("C02", ["LC.Props.C02", "LC.Props.C02Words"], [MATCH],
   "real Match on exact / edited (word deletions, substitutions, insertions at 2-30%) / truncated / multi-license inputs, "
@@ -310,8 +310,10 @@ P("C14", ["LC.Props.C14"],
   [rootrun("stringclassifier", "stringclassifier", "overlay/stringclassifier/zz_verif_test.go", "TestVerifC14", race=True, timeout=1800),
    rootrun("serializer", "serializer", "overlay/serializer/zz_verif_test.go", "TestVerifC14License", race=True, timeout=1800)],
   "8/48 goroutines x rounds of concurrent MultipleMatch / NearestMatch / AddValue on a freshly populated classifier (lazy "
-  "search sets still nil) under the race detector, results compared with a sequentially used twin. distinct = round; "
-  "non-trivial = all",
+  "search sets still nil) under the race detector, results compared with a sequentially used twin (queries with copies of several "
+  "values, so that one call collects hits of several known values at once); and the same for ONE licenseclassifier.License built from "
+  "an archive (TestVerifC14License: license texts, edited copies, snippets that pass the word gate and match nothing; a caller that "
+  "changes its result must not change later results). distinct = round; non-trivial = all",
   "PARTIAL: the skeleton of multipleMatch regenerated from the AST is checked (skeleton_current) to be the locked "
   "check-and-set shape for which protocol_no_race / protocol_at_most_one_write / protocol_reads_agree (C09 file) hold for every "
   "number of threads and interleaving; racy_unlocked_check / prefix_skeleton_rejected show the pre-repair shape races. "
